@@ -6,6 +6,12 @@ BASELINE = "cd /repo && cargo test --workspace --no-fail-fast --offline"
 
 # property id -> (technique, level text, level note, design ref)
 CLAIMED = {
+    "C01": (
+        "runtime monitor: accepted-implies-lossless boundary oracle (reference tokeniser on input vs serialised output) + byte-conservation monitor over MessageParser hook events",
+        "Exploration: every corpus message of all 30 types under every single structural mutation (unknown / duplicated / deleted / swapped / moved / foreign fields, unknown option letter, appended content, extra lines, certainly-invalid content, repetition counts around caps, LF/CRLF, bare and in an envelope; pairs of mutations in thorough). For each accepted text the reference-tokenised input must equal the tokenised output (tags in order, content up to number / line-end formatting) and the hook trace must account for every byte.",
+        "Trusted: the 30-line reference tokeniser and the number canonicalisation. Hooks only explain and double-check; the boundary comparison is primary.",
+        "DESIGN.md section 3, C01",
+    ),
     "C02": (
         "runtime monitor: metamorphic round-trip oracle (parse, serialise, re-parse, compare three views, fixed point) over corpus, mutated and re-spelled inputs",
         "Exploration: for every input the library accepts (corpus messages, all single structural mutations, per-field spelling variants, LF/CRLF, full envelopes; every corpus field content and its variants through every field type of the same number, with and without option letter) the monitor re-parses the library's own output and compares Debug, JSON and re-serialisation; held = no unlisted difference on the executions observed.",
